@@ -4,6 +4,8 @@ CONSTANTS
   Interleave = TRUE
   SeqParams <- SeqPlain
   Modes = {"None", "Sign", "SignAndEncrypt"}
+  Splits = {"any"}
+  PreInjects = {"none"}
   Moves = {}
   Damages = {}
   Injects = {}
